@@ -270,9 +270,67 @@ fn raw_core(which: Which, case: &RawCase) -> CaseOutcome
                     || d.signature == "out-of-scope-file-changed"
                     || d.signature == "edit-vs-parser-mismatch"
                     || d.signature == "check-no-total"
+                    || d.signature == "other-files-not-processed-after-unreadable-file"
             });
         },
         Which::C06 => (),
+    }
+    // C17: a file that cannot be READ (injected EACCES/EIO on its open or read) is reported and skipped
+    // while the other files are still processed exactly as without the fault
+    if which == Which::C17 && devs.is_empty() && in_scope.len() >= 2 && crate::engine::hash_of(&case.tree) % 3 == 0
+    {
+        let sb2 = Sandbox::new();
+        materialise(&sb2.proj(), &tree);
+        let rec_run = crate::sandbox::shim_run(&sb2, true, None);
+        o.evals += 1;
+        let victim = &in_scope[(crate::engine::hash_of(&in_scope) as usize) % in_scope.len()];
+        let vpath = sb2.proj().join(victim).to_string_lossy().to_string();
+        let ops: Vec<&crate::sandbox::TraceOp> = rec_run.trace.iter().filter(|t| t.k > 0 && t.path == vpath && (t.kind == "open" || t.kind == "read")).collect();
+        if let Some(t) = ops.get((crate::engine::hash_of(victim) as usize) % ops.len().max(1))
+        {
+            let errno = if t.kind == "open" { "EACCES" } else { "EIO" };
+            let fr = crate::sandbox::shim_run(&sb2, true, Some(format!("fail:{}:{}", t.k, errno)));
+            o.evals += 1;
+            o.class("injected-read-failure-on-one-file");
+            let mut d2 = Vec::new();
+            no_crash(&fr, "--check with an unreadable file", &mut d2);
+            let named = fr.report.unreadable.iter().any(|p| rel_path(p, &sb2.proj()) == *victim);
+            if !named
+            {
+                d2.push(dev(
+                    "unreadable-file-not-reported",
+                    format!("{} could not be read ({} injected on its {}), but the --check run did not report it:\n{}", victim, errno, t.kind, fr.output_tail()),
+                ));
+            }
+            let base = by_file(&rec_run.report.missing, &sb2.proj());
+            let got = by_file(&fr.report.missing, &sb2.proj());
+            for f in &in_scope
+            {
+                if f == victim
+                {
+                    continue;
+                }
+                let mut a = base.get(f).cloned().unwrap_or_default();
+                let mut b = got.get(f).cloned().unwrap_or_default();
+                a.sort();
+                b.sort();
+                if a != b
+                {
+                    d2.push(dev(
+                        "other-files-not-processed-after-unreadable-file",
+                        format!("{} could not be read; for {} the run reported {:?} instead of {:?}", victim, f, b, a),
+                    ));
+                }
+            }
+            if fr.exit == crate::sandbox::Exit::Timeout
+            {
+                o.inconclusive = Some("run with injected read failure exceeded the time limit".into());
+            }
+            else
+            {
+                devs.extend(d2);
+            }
+        }
     }
     for r in [&pair.check, &pair.edit]
     {
@@ -617,7 +675,7 @@ pub fn run(env: &Env, rec: &Recorder, which: Which) -> (String, Vec<&'static str
             {
                 Which::C03 => "trees of 1-3 files from three raw sources (real corpus files under a widened macro set; rendered statement-model files; literal odd texts) optionally mutated (byte/char/token-level, Unicode injection, CRLF conversion, truncation, duplication, invalid UTF-8) or repeated up to 1 MiB (quick) / 4 MiB (thorough); oracle: exact insertion decomposition (deleting the inserted tokens gives back the original bytes), printed count = tokens inserted, insertion offsets = offsets the parser calls missing, unreadable/out-of-scope files byte-identical. Non-trivial = distinct file content with >= 1 insertion and (multi-byte char or tab before an insertion | >= 2 insertions | CRLF | > 64 KiB | produced by mutation)",
                 Which::C05 => "raw trees as for C03 (25 % pre-edited so that nothing is missing) and modelled trees of up to 6 files; oracle: multiset of (file,line,col) reported by --check = positions (position model: 1-based, characters) of the tokens the edit run inserts, totals and exit status consistent, for modelled files also = the model's Missing set. Non-trivial = distinct tree/statement with a missing reference on a line containing a tab, multi-byte character or CRLF, or files with different counts, or a tree with nothing missing (exit 0 side)",
-                _ => "CLI half of C17: raw trees incl. invalid UTF-8, empty files, truncated statements, non-ASCII identifiers before `!(`, repeated blocks up to 4-6 MiB; oracle: neither mode panics / aborts / dies by signal, a file that is not valid UTF-8 is named in an error line and left untouched while the other files are processed exactly as the parser predicts. Non-trivial = tree containing a mutated file, an invalid-UTF-8 file or a file > 1 MiB",
+                _ => "CLI half of C17: raw trees incl. invalid UTF-8, empty files, truncated statements, non-ASCII identifiers before `!(`, repeated blocks up to 4-6 MiB; oracle: neither mode panics / aborts / dies by signal, a file that is not valid UTF-8, or whose open/read fails (injected EACCES/EIO on a third of the multi-file trees), is named in an error line and left untouched while the other files are processed exactly as the parser predicts / as without the fault. Non-trivial = tree containing a mutated file, an invalid-UTF-8 file or a file > 1 MiB",
             };
             (rule.to_string(), vec!["a run exceeding the 120 s watchdog is reported as inconclusive (exit 2), never as a violation"])
         },
